@@ -672,3 +672,76 @@ func (fi *FuncInfo) valueFresh(v ssa.Value, depth int) bool {
 	}
 	return false
 }
+
+// SpawnArg returns the closure (if any) registered or started by a spawn site.
+func SpawnArg(site ssa.Instruction) (*ssa.MakeClosure, bool) {
+	ci, ok := site.(ssa.CallInstruction)
+	if !ok {
+		return nil, false
+	}
+	if g, isGo := site.(*ssa.Go); isGo {
+		mc, ok := g.Call.Value.(*ssa.MakeClosure)
+		return mc, ok
+	}
+	_, fv := SpawnTarget(ci.Common())
+	mc, ok := fv.(*ssa.MakeClosure)
+	return mc, ok
+}
+
+// ResolveFreeVar maps a value used inside closure mc.Fn (a free variable, or a
+// load of a by-reference free variable) to the value it has in the enclosing
+// function: the binding itself, or the single value stored into the captured
+// variable. Values that are not free variables are returned unchanged.
+func ResolveFreeVar(v ssa.Value, mc *ssa.MakeClosure) ssa.Value {
+	if mc == nil {
+		return v
+	}
+	fn, _ := mc.Fn.(*ssa.Function)
+	if fn == nil {
+		return v
+	}
+	idxOf := func(fv *ssa.FreeVar) int {
+		for i, f := range fn.FreeVars {
+			if f == fv {
+				return i
+			}
+		}
+		return -1
+	}
+	switch x := v.(type) {
+	case *ssa.FreeVar:
+		if i := idxOf(x); i >= 0 {
+			return mc.Bindings[i]
+		}
+	case *ssa.UnOp:
+		if fv, ok := x.X.(*ssa.FreeVar); ok && x.Op.String() == "*" {
+			i := idxOf(fv)
+			if i < 0 {
+				return nil
+			}
+			al, ok := mc.Bindings[i].(*ssa.Alloc)
+			if !ok {
+				return nil
+			}
+			var stored ssa.Value
+			n := 0
+			if refs := al.Referrers(); refs != nil {
+				for _, r := range *refs {
+					if st, ok := r.(*ssa.Store); ok && st.Addr == al {
+						stored = st.Val
+						n++
+					}
+				}
+			}
+			if n == 1 {
+				return stored
+			}
+			return nil
+		}
+	case *ssa.ChangeInterface:
+		return ResolveFreeVar(x.X, mc)
+	case *ssa.MakeInterface:
+		return ResolveFreeVar(x.X, mc)
+	}
+	return v
+}
